@@ -261,10 +261,10 @@ def run_plan(plan, fault=None, max_iter=60_000):
         await h.handle_client()
         w.returned = True
         w.log("returned")
-        # hooks started by the layer are not awaited by handle_client; let them complete (they are finite) so that
-        # what their completion triggers on the finished handler is observed too
+        # hooks started by the layer are not awaited by handle_client; let them (and wakeups requested on their
+        # completion) complete - they are finite - so that what they trigger on the finished handler is observed too
         for _ in range(4):
-            pend = [t for t in loop.tasks if not t.done() and t.get_name().startswith("handle_hook(")]
+            pend = [t for t in loop.tasks if not t.done() and t.get_name().startswith(("handle_hook(", "wakeup timer"))]
             if not pend:
                 break
             await asyncio.wait(pend, timeout=4000)
